@@ -24,6 +24,9 @@ MAXU = {"u8": 8, "u16": 16, "u32": 32, "u64": 64, "u128": 128, "usize": 64,
         "i8": 8, "i16": 16, "i32": 32, "i64": 64, "i128": 128, "isize": 64}
 
 
+INLINE_SWITCHES = 6
+
+
 class TooComplex(Exception):
     pass
 
@@ -326,7 +329,9 @@ class Engine:
         if re.match(r"^&(\'\w+ )?\[u8; \d+\]$", c.get("ty", "")) and disp.startswith('b"'):
             try:
                 import ast
-                return ("bytes", tuple(ast.literal_eval(disp)))
+                bs = tuple(ast.literal_eval(disp))
+                if len(bs) == int(re.search(r"; (\d+)\]$", c["ty"]).group(1)):
+                    return ("bytes", bs)
             except Exception:
                 pass
         return ("lit", c["ty"], disp)
@@ -623,7 +628,7 @@ class Engine:
                 return r
         if self.has_loops(callee_item):
             return False
-        return self.count_returns(callee_item) <= 2
+        return self.count_returns(callee_item) <= INLINE_SWITCHES
 
     def count_returns(self, item):
         key = "rets@" + item.path + str(id(item))
